@@ -72,3 +72,99 @@ def save_files(d, files):
     for n, t in files.items():
         out[n] = write(os.path.join(d, n), t)
     return out
+
+
+# ---- race-free compile cache + reproducible recipes ----------------------------------------------
+import threading  # noqa: E402
+
+_cc_locks = [threading.Lock() for _ in range(64)]
+
+
+def cc(ctx, src, flags=(), lang="c", compiler=None):
+    """tools.compile_c, serialised per content key: two threads compiling the same source would
+    otherwise replace the cached object while a third is already linking it (wild then reports
+    'file was changed while we were running')."""
+    from .common import sha
+    k = int(sha((compiler or "") + lang + "\0".join(flags) + src)[:8], 16) % len(_cc_locks)
+    with _cc_locks[k]:
+        return tools.compile_c(ctx, src, tuple(flags), lang=lang, compiler=compiler)
+
+
+class Recipe:
+    """Records how a case's inputs were built so a violation can be replayed with plain commands
+    (sources + repro.sh in the replay dir)."""
+
+    def __init__(self, ctx, d):
+        self.ctx, self.d = ctx, d
+        self.names = {}
+        self.srcs = {}
+        self.steps = []
+
+    def obj(self, name, src, flags=(), lang="c", compiler=None):
+        p = cc(self.ctx, src, flags, lang, compiler)
+        ext = {"c": ".c", "s": ".s", "c++": ".cc", "S": ".S"}[lang]
+        self.srcs[name + ext] = src
+        self.names.setdefault(p, name + ".o")
+        comp = os.path.basename(compiler) if compiler else ("g++" if lang == "c++" else "gcc")
+        self.steps.append(f"{comp} -c {' '.join(flags)} {name}{ext} -o {self.names[p]}")
+        return p
+
+    def archive(self, name, members, thin=False):
+        path = os.path.join(self.d, name)
+        tools.make_archive(path, members, thin=thin)
+        self.names[path] = name
+        self.steps.append(f"rm -f {name}; ar {'rcsT' if thin else 'rcs'} {name} " + " ".join(self.sub(members)))
+        return path
+
+    def name(self, path, name):
+        self.names[path] = name
+        return path
+
+    def sub(self, args):
+        out = []
+        for a in args:
+            a = str(a)
+            for p, n in self.names.items():
+                if p in a:
+                    a = a.replace(p, n)
+            out.append(a)
+        return out
+
+    def link(self, kind, args, out, extra_env=None, timeout=180, note=True, driver=None):
+        """gcc -B link with `kind`, recorded in the recipe."""
+        res = glink(self.ctx, kind, args, out, extra_env=extra_env, timeout=timeout, driver=driver)
+        if note:
+            env = " ".join(f"{k}={v}" for k, v in (extra_env or {}).items())
+            outn = self.names.get(out, os.path.relpath(out, self.d).replace("/", "_"))
+            self.names.setdefault(out, outn)
+            drv = os.path.basename(driver) if driver else "gcc"
+            self.steps.append(f"{env + ' ' if env else ''}{drv} -B$B_{kind.upper()} " + " ".join(self.sub(args)) + f" -o {outn}"
+                              + ("" if res.ok else f"   # failed rc={res.rc}"))
+        return res
+
+    def step(self, text):
+        self.steps.append(text)
+
+    def files(self, extra=None):
+        sh = ("#!/bin/sh\n# B_WILD / B_LD / B_LLD: directories containing a symlink `ld` to wild / ld.bfd / ld.lld\n"
+              "# e.g. mkdir -p bw bl bd; ln -sf /verif/.build/hook/opt/wild bw/ld; ln -sf $(which ld.bfd) bl/ld; "
+              "ln -sf $(which ld.lld) bd/ld\n: ${B_WILD:=bw} ${B_LD:=bl} ${B_LLD:=bd}\nset -x\n" + "\n".join(self.steps) + "\n")
+        f = dict(self.srcs)
+        f["repro.sh"] = sh
+        if extra:
+            f.update(extra)
+        return f
+
+
+class SigLimiter:
+    """Saves at most `n` witnesses per signature per run; the rest are only counted."""
+
+    def __init__(self, ctx, n=2):
+        self.ctx, self.n, self.c, self.lock = ctx, n, {}, threading.Lock()
+
+    def violation(self, sig, desc, **kw):
+        with self.lock:
+            k = self.c[sig] = self.c.get(sig, 0) + 1
+        self.ctx.note("violating-cases:" + sig)
+        if k <= self.n or str(kw.get("case", "")).startswith("pinned"):
+            self.ctx.violation(sig, desc, **kw)
